@@ -84,6 +84,17 @@ type Remote struct {
 
 	mu      sync.Mutex
 	pending map[string]pendingMsg
+	closed  bool // Serve has returned, the connection is gone
+}
+
+// Closed returns true once Serve has returned: the connection is gone, and
+// whoever was told about it by then (see Serve's caller) will not hear of it
+// again. Handlers that are still running can check it before they leave
+// anything behind that refers to this connection.
+func (r *Remote) Closed() bool {
+	r.mu.Lock()
+	defer r.mu.Unlock()
+	return r.closed
 }
 
 // clearPending removes num oldest entries, must hold the r.mu lock.
@@ -150,6 +161,9 @@ func (r *Remote) Serve() error {
 	for {
 		msg, err := r.Codec.ReadMessage()
 		if err != nil {
+			r.mu.Lock()
+			r.closed = true
+			r.mu.Unlock()
 			return err
 		}
 		if msg.Request != nil {
